@@ -21,6 +21,21 @@ import (
 
 func init() {
 	workloads["C17"] = runC17
+	witnesses["B49"] = func() (bool, string) {
+		d := sonic.ConfigStd.NewDecoder(strings.NewReader(`true "x" false`))
+		var got []string
+		for k := 0; k < 4; k++ {
+			var b bool
+			err := d.Decode(&b)
+			if err == io.EOF {
+				got = append(got, "EOF")
+				break
+			}
+			got = append(got, fmt.Sprintf("%v/%T", b, err))
+		}
+		// encoding/json: true, *json.UnmarshalTypeError, false, EOF
+		return len(got) >= 3 && !strings.HasPrefix(got[2], "false/<nil>"), "stream `true \"x\" false` into *bool: " + strings.Join(got, " ; ")
+	}
 }
 
 var cfgStreamNum = sonic.Config{CopyString: true, ValidateString: true, UseNumber: true}.Froze()
@@ -39,6 +54,11 @@ type chunkReader struct {
 	failAt  int // -1: never; otherwise after delivering failAt bytes the next Read returns errBoom
 	reads   int
 	eofSent bool
+	// failWithData: the Read that delivers the last byte before failAt returns the failure together
+	// with that data ("it may return the (non-nil) error from the same call", io.Reader) and reports
+	// it only once: later Reads return (0, io.EOF)
+	failWithData bool
+	failSent     bool
 }
 
 func (r *chunkReader) Read(p []byte) (int, error) {
@@ -46,7 +66,13 @@ func (r *chunkReader) Read(p []byte) (int, error) {
 	if r.eofSent {
 		return 0, io.EOF // a well-behaved reader keeps reporting EOF
 	}
+	if r.failSent {
+		return 0, io.EOF
+	}
 	if r.failAt >= 0 && r.pos >= r.failAt {
+		if r.failWithData {
+			r.failSent = true
+		}
 		return 0, errBoom
 	}
 	if r.pos >= len(r.data) {
@@ -71,6 +97,10 @@ func (r *chunkReader) Read(p []byte) (int, error) {
 	}
 	n := copy(p, r.data[r.pos:end])
 	r.pos += n
+	if r.failWithData && r.failAt >= 0 && r.pos >= r.failAt && n > 0 {
+		r.failSent = true
+		return n, errBoom
+	}
 	if r.eofWithData && r.pos >= len(r.data) && n > 0 {
 		r.eofSent = true
 		return n, io.EOF
@@ -192,8 +222,93 @@ var streamNegZero = regexp.MustCompile(`-0([^.eE]|$)`)
 
 var negZeroDump =strings.NewReplacer("f64(0x8000000000000000)", "f64(0x0)")
 
+// runTyped decodes every value of the stream into a fresh destination of one type; a value of
+// another type is an error of that VALUE (encoding/json: *UnmarshalTypeError, sonic:
+// *decoder.MismatchTypeError), after which the stream must go on with the next value.
+func runTyped(d jsonDecoder, maxCalls int, newDst func() interface{}, typeErr func(error) bool) (vals []string, term string) {
+	for k := 0; k < maxCalls; k++ {
+		v := newDst()
+		err := d.Decode(v)
+		switch {
+		case err == nil:
+			vals = append(vals, negZeroDump.Replace(gen.Dump(reflect.ValueOf(v).Elem())))
+		case typeErr(err):
+			vals = append(vals, "TYPE-ERROR")
+		case err == io.EOF:
+			return vals, "EOF"
+		case err == errBoom:
+			return vals, "BOOM"
+		default:
+			return vals, "ERR"
+		}
+	}
+	return vals, "NOEND"
+}
+
+var c17TypedDsts = []struct {
+	name string
+	mk   func() interface{}
+}{
+	{"*string", func() interface{} { return new(string) }},
+	// (no *bool: known finding B49, avoid-mode - a wrong-kind value shorter than 4 bytes at the end of
+	// its frame is a SyntaxError for a bool destination, which ends the stream)
+	{"*[]interface{}", func() interface{} { return new([]interface{}) }},
+	{"*map[string]interface{}", func() interface{} { return new(map[string]interface{}) }},
+	{"*struct{A []string}", func() interface{} { return new(struct{ A []string }) }},
+}
+
+// c17Typed: typed destinations, values of the wrong type in the middle of the stream.
+func c17Typed(c *Ctx, i int, input string, mk func() *chunkReader, what string) {
+	if streamHasOverflowFloat(input) || streamNegZero.MatchString(input) {
+		return // number range errors / the sign of zero are other findings' business
+	}
+	dst := c17TypedDsts[(i+len(input))%len(c17TypedDsts)]
+	maxCalls := len(input) + 3
+	jvals, jterm := runTyped(json.NewDecoder(mk()), maxCalls, dst.mk, func(e error) bool { _, ok := e.(*json.UnmarshalTypeError); return ok })
+	var svals []string
+	var sterm string
+	if c.Guard(i, "stream Decode", func() {
+		svals, sterm = runTyped(sonic.ConfigStd.NewDecoder(mk()), maxCalls, dst.mk, func(e error) bool { _, ok := e.(*decoder.MismatchTypeError); return ok })
+	}) {
+		return
+	}
+	c.Count("decoder_runs_typed_destination", 1)
+	mism := 0
+	for _, v := range jvals {
+		if v == "TYPE-ERROR" {
+			mism++
+		}
+	}
+	if mism > 0 {
+		c.Count("typed_streams_with_a_value_of_the_wrong_type", 1)
+	}
+	if jterm == "BOOM" || sterm == "BOOM" {
+		// reader failures next to a value: the finer tolerances are applied by c17Check; here only prefixes are compared
+		m := len(jvals)
+		if len(svals) < m {
+			m = len(svals)
+		}
+		jvals, svals = jvals[:m], svals[:m]
+		jterm, sterm = "", ""
+	}
+	if jterm == "ERR" && sterm == "BOOM" {
+		sterm = "ERR"
+	}
+	if !sameVals(svals, jvals) || sterm != jterm {
+		d := map[string]interface{}{"input": q(input), "reader": what, "destination": dst.name, "sonic": fmt.Sprint(len(svals), " values, end ", sterm), "std": fmt.Sprint(len(jvals), " values, end ", jterm)}
+		for k := 0; k < len(svals) && k < len(jvals); k++ {
+			if svals[k] != jvals[k] {
+				d["first_difference"] = fmt.Sprintf("value %d: sonic %s | std %s", k, trunc(svals[k], 200), trunc(jvals[k], 200))
+				break
+			}
+		}
+		c.Violate(i, "ConfigStd.NewDecoder -> "+dst.name, "typed destination: value sequence / terminal condition differs from encoding/json.Decoder on the same bytes", d)
+	}
+}
+
 func c17Check(c *Ctx, i int, input string, mk func() *chunkReader, what string) {
 	c.Count("decoder_runs", 1)
+	c17Typed(c, i, input, mk, what)
 	maxCalls := len(input) + 3
 	// encoding/json on the very same reader behaviour
 	jr := mk()
@@ -255,6 +370,47 @@ func c17Check(c *Ctx, i int, input string, mk func() *chunkReader, what string) 
 		}
 		if sres.term == "NOEND" {
 			c.Violate(i, api, "Decode kept returning nil beyond len(input)+3 calls", detail())
+			continue
+		}
+		if jr.failWithData {
+			// The reader reports its failure once, together with the last bytes it delivers. encoding/json
+			// itself forgets such an error when a complete value came with it, so the oracle here is the
+			// statement: the values completely contained in the delivered bytes (encoding/json on exactly
+			// those bytes), then the reader's error by identity - or a syntax error if the delivered bytes
+			// already contain one; never a clean end of the stream.
+			fa := jr.failAt
+			if fa > len(input) {
+				fa = len(input)
+			}
+			ud := json.NewDecoder(strings.NewReader(input[:fa]))
+			if variant == 2 {
+				ud.UseNumber()
+			}
+			upper, _ := runStream(ud, maxCalls, nil)
+			if variant >= 3 {
+				upper, _ = runStreamInto(json.NewDecoder(strings.NewReader(input[:fa])), maxCalls, nil, func() interface{} { return new(json.RawMessage) }, c17RawDump)
+			}
+			nz := func(xs []string) []string {
+				o := make([]string, len(xs))
+				for k, x := range xs {
+					o[k] = negZeroDump.Replace(x)
+				}
+				return o
+			}
+			sv, uv := nz(sres.vals), nz(upper.vals)
+			okVals := len(sv) <= len(uv) && sameVals(sv, uv[:len(sv)]) &&
+				(len(sv) == len(uv) || (len(sv) == len(uv)-1 && fa > 0 && strings.IndexByte("0123456789.eE+-", input[fa-1]) >= 0))
+			okTerm := (sres.term == "BOOM" && sres.err == errBoom) || (sres.term == "ERR" && upper.term == "ERR")
+			if variant >= 3 && isOptdec && streamHasOverflowFloat(input) {
+				okVals, okTerm = true, true // finding B20
+			}
+			if !okVals || !okTerm {
+				d := detail()
+				d["values_complete_in_delivered_bytes"] = len(uv)
+				d["delivered_bytes_end"] = upper.term
+				c.Violate(i, api, "reader failure reported once together with data: the values before it and then the reader's error are expected", d)
+			}
+			c.Count("reader_failures_delivered_with_data", 1)
 			continue
 		}
 		// known finding B24 (literal -0 decodes to +0) would mask everything else on
@@ -469,7 +625,8 @@ func runC17(c *Ctx) {
 				}
 				return rd
 			}, fmt.Sprintf("1-byte reads, fail@%d", p))
-			c.Count("failure_positions", 2)
+			c17Check(c, i, input, func() *chunkReader { rd := newReader(input); rd.failAt = p; rd.failWithData = true; return rd }, fmt.Sprintf("fail-with-data@%d, reported once", p))
+			c.Count("failure_positions", 3)
 		}
 	}
 	// ---- Part 2: larger inputs, sampled chunkings incl. buffer-size boundaries
